@@ -26,15 +26,20 @@ TOLERANCES = {"pow2": "bit-identical", "decimal": 1e-9, "medium": 1e-9,
               "cabs-absolute": "1e-10 Cext when the index is real"}
 TIMEOUT = 600
 
+H.ST["auto-ms2"] = (H.ST["ms2"][0], "auto")
+H.ST["auto-far"] = (("spheres", [(1.59, 0.5, (0.2, 0.1, 5.0)),
+                                 (1.45, 0.3, (20.0, 4.0, 7.0))]), "auto")
 STS = {"quick": ["mie", "layered", "ms2", "tm-spheroid", "tm-cylinder",
-                 "mielens", "abmielens", "lens-mie", "mie2"],
+                 "mielens", "abmielens", "lens-mie", "mie2", "auto-ms2",
+                 "auto-far"],
        "thorough": ["mie", "mie-far", "mie-abs", "layered", "mie2", "ms1",
                     "ms2", "tm-sphere", "tm-spheroid", "tm-cylinder",
-                    "mielens", "abmielens", "mielens2", "lens-mie"]}
+                    "mielens", "abmielens", "mielens2", "lens-mie",
+                    "auto-ms2", "auto-far", "auto"]}
 SCALES = {"quick": [2.0 ** -13, 2.0 ** 7, 1e-3, 1e4, 1e9],
           "thorough": [2.0 ** -13, 2.0 ** -7, 2.0 ** 7, 2.0 ** 13, 2.0 ** 30,
                        1e-6, 1e-4, 1e-3, 1e3, 1e4, 1e9]}
-DETK = ["g4x5a", "p4z0"]
+DETK = ["g4x5a", "p4z0", "p3"]        # p3: points off the z=0 plane
 NMEDS = [1.33, 1.5, 1.0003]
 POL = (0.6, -0.8)
 
@@ -59,7 +64,7 @@ def _pol_for(st):
     return (1, 0) if st.startswith("tm-") else POL
 
 
-MS_XSEC = {"quick": {("ms2", 2.0 ** 7)},
+MS_XSEC = {"quick": {("ms2", 2.0 ** -13)},
            "thorough": {("ms1", 2.0 ** -13), ("ms1", 1e3), ("ms2", 2.0 ** 7),
                         ("ms2", 1e-4), ("ms2", "medium1.5")}}
 
@@ -86,7 +91,8 @@ def _quantities(st, scale, detname, nmed=H.NMED, wl=H.WL, nscale=1.0,
                          det, scat, nmed, wl * scale, theory=theory)),
                      ("xsec", lambda: calc_cross_sections(
                          scat, nmed, wl * scale, pol, theory=theory))):
-        if name == "xsec" and st in ("ms1", "ms2") and not ms_xsec:
+        if name == "xsec" and st in ("ms1", "ms2", "auto-ms2") and \
+                not ms_xsec:
             continue            # dblquad inside (~17 s): selected cases only
         try:
             out[name] = np.ascontiguousarray(fn().values)
@@ -161,6 +167,9 @@ def run_case(case):
         fps = _compare(ck, "%s x%r on %s" % (st, s, case["det"]), base, got,
                        pow2, s, 1e-9)
         n_ok = sum(1 for v in base.values() if not isinstance(v, tuple))
+        if case["det"] == "p3" and ("mielens" in st or "lens" in st):
+            return ck.result(fp="refused", outcome="refused",
+                             nontrivial=False)
         ck.true("something-computed", n_ok >= 3, "fewer than three "
                 "quantities could be computed for %s: %r" %
                 (st, {k: v for k, v in base.items()
